@@ -375,6 +375,15 @@ class CInterp:
             if isinstance(a[0], FV):
                 return FV([self.builtin(name, [x]) for x in a[0].v])
             return self.floor_(a[0])
+        if name in ("ceilf", "ceil"):
+            if not is_sym(a[0]):
+                import math
+                return float(math.ceil(a[0]))
+            t = rterm(a[0])
+            n = z3.Int(core.fresh_name("ceil"))
+            r = z3.ToReal(n)
+            self.ex.assume(z3.And(r - 1 < t, t <= r))
+            return SReal(r)
         if name in ("fabsf", "fabs", "abs"):
             if isinstance(a[0], FV):
                 return FV([abs(x) for x in a[0].v])
@@ -689,12 +698,23 @@ class CInterp:
                 v = self.decl_hook(self, env, d.get("name"), v)
             env[d["id"]] = v
 
+    def _trunc(self, v):
+        if isinstance(v, (float, int)):
+            return int(v)
+        if isinstance(v, SNum):
+            # C conversion truncates toward zero (the value is assumed to fit the integer type): witness n
+            t = rterm(v)
+            n = z3.Int(core.fresh_name("trunc"))
+            r = z3.ToReal(n)
+            self.ex.assume(z3.If(t >= 0, z3.And(r <= t, t < r + 1), z3.And(r - 1 < t, t <= r)))
+            self.ex.path.ghost.setdefault("trunc_witness", []).append((t, n))
+            return SInt(n)
+        raise Unsupported("float to int conversion of this value")
+
     def coerce(self, v, qt):
         base = qt.replace("const", "").strip()
         if base in ("int", "unsigned int", "long", "size_t") and isinstance(v, (float, SReal)):
-            if isinstance(v, float):
-                return int(v)
-            raise Unsupported("float to int conversion of a symbolic value")
+            return self._trunc(v)
         if base == "bool" and isinstance(v, Ptr):
             return v.region is not None
         return v
@@ -1066,10 +1086,7 @@ class CInterp:
         if ck == "NullToPointer":
             return NULL
         if ck == "FloatingToIntegral":
-            v = self.rv(x)
-            if isinstance(v, float):
-                return int(v)
-            raise Unsupported("float to int conversion of a symbolic value")
+            return self._trunc(self.rv(x))
         raise Unsupported(f"cast kind {ck}")
 
     def e_CStyleCastExpr(self, n, env):
@@ -1442,7 +1459,13 @@ class CInterp:
         callee = self.expr(n["inner"][0], env)
         op = callee[1]
         args = [self.expr(a, env) for a in n["inner"][1:]]
-        a0 = self.rv(args[0])
+        if op == "operator=" and isinstance(args[0], LRef):
+            try:
+                a0 = self.rv(args[0])
+            except Unsupported:
+                a0 = None  # assignment to a not yet initialised element of a local array of objects
+        else:
+            a0 = self.rv(args[0])
         if op == "operator[]":
             idx = self.rv(args[1])
             if hasattr(a0, "c_index"):  # abstract container supplied by a contract (a view of a data structure)
@@ -1528,6 +1551,8 @@ class CInterp:
         base = self.rv(obj) if isinstance(obj, LRef) else obj
         if isinstance(base, StructObj):
             name = n.get("name")
+            if "<bound member function type>" in n.get("type", {}).get("qualType", ""):
+                return ("member", name, base)  # obj.method / this->method as the callee of a member call
 
             def setter(v, base=base, name=name):
                 base.fields[name] = v
